@@ -2,7 +2,9 @@ package dynamiccache
 
 // Correspondence harness for property C12, stream `informermap`:
 // the REAL Cache over the REAL InformerMap (real client-go shared informers / reflectors) on top of
-// a hand-written dynamic.Interface fake that counts LIST calls and WATCH streams per kind and can
+// a hand-written dynamic.Interface fake that honours request contexts (LIST/WATCH fail on an ended
+// context, an open WATCH stream is closed when its context ends; every op is made with its own
+// per-call context that is cancelled when the call returns), counts LIST calls and WATCH streams per kind and can
 // make a kind un-mappable (no REST mapping) or make its LIST hang beyond the caller's deadline
 // (=> "failed waiting for Informer to sync").  The real cacheSource carries one counting handler.
 //
@@ -58,8 +60,23 @@ type c12imKind struct {
 }
 
 type c12imAPI struct {
-	mu    sync.Mutex
-	kinds [c12imKinds]c12imKind
+	mu      sync.Mutex
+	kinds   [c12imKinds]c12imKind
+	watches []*c12imWatch // every WATCH stream ever opened
+}
+
+// closeEnded closes, synchronously, every stream whose request context has ended (what the transport
+// does; context.AfterFunc does the same asynchronously).  Called right after a per-call context was
+// cancelled, so that the observation that follows does not race with the closing.
+func (a *c12imAPI) closeEnded() {
+	a.mu.Lock()
+	ws := append([]*c12imWatch(nil), a.watches...)
+	a.mu.Unlock()
+	for _, w := range ws {
+		if w.ctx.Err() != nil {
+			w.transportClose()
+		}
+	}
 }
 
 func c12imKindOf(name string) int {
@@ -100,7 +117,12 @@ type c12imRes struct {
 
 func (r *c12imRes) Namespace(string) dynamic.ResourceInterface { return r }
 
-func (r *c12imRes) List(context.Context, metav1.ListOptions) (*unstructured.UnstructuredList, error) {
+// List and Watch honour the request context the way the REST client does: no request is sent on a
+// context that has ended, and an open WATCH stream is closed when the context it was opened with ends.
+func (r *c12imRes) List(ctx context.Context, _ metav1.ListOptions) (*unstructured.UnstructuredList, error) {
+	if err := ctx.Err(); err != nil {
+		return nil, err
+	}
 	a := r.api
 	a.mu.Lock()
 	st := &a.kinds[r.k]
@@ -127,8 +149,11 @@ func (r *c12imRes) List(context.Context, metav1.ListOptions) (*unstructured.Unst
 type c12imWatch struct {
 	api  *c12imAPI
 	k    int
+	ctx  context.Context
 	ch   chan watch.Event
 	once sync.Once
+	// closeOnce guards closing ch when the request context of the stream ends
+	closeOnce sync.Once
 }
 
 func (w *c12imWatch) ResultChan() <-chan watch.Event { return w.ch }
@@ -140,13 +165,25 @@ func (w *c12imWatch) Stop() {
 	})
 }
 
-func (r *c12imRes) Watch(context.Context, metav1.ListOptions) (watch.Interface, error) {
+// transportClose: the stream ends because its request context ended.
+func (w *c12imWatch) transportClose() {
+	w.Stop()
+	w.closeOnce.Do(func() { close(w.ch) })
+}
+
+func (r *c12imRes) Watch(ctx context.Context, _ metav1.ListOptions) (watch.Interface, error) {
+	if err := ctx.Err(); err != nil {
+		return nil, err
+	}
 	a := r.api
+	w := &c12imWatch{api: a, k: r.k, ctx: ctx, ch: make(chan watch.Event)}
 	a.mu.Lock()
 	a.kinds[r.k].opened++
 	a.kinds[r.k].open++
+	a.watches = append(a.watches, w)
 	a.mu.Unlock()
-	return &c12imWatch{api: a, k: r.k, ch: make(chan watch.Event)}, nil
+	context.AfterFunc(ctx, w.transportClose)
+	return w, nil
 }
 
 // ---- one scenario -----------------------------------------------------------------------------
@@ -324,6 +361,7 @@ func c12imExec(scn c12imScn) string {
 			return "BAD-OP"
 		}
 		cancel()
+		s.api.closeEnded()
 		res := "ok"
 		var ns *CacheNotStartedError
 		switch {
